@@ -363,6 +363,7 @@ func (p *path) addRule(
 		invalid(tok)
 	}
 
+	exists := false
 	if y, ok := cursor.methods[verb]; ok || cursor.methodAll != nil {
 		if !ok {
 			y = cursor.methodAll // bound for every verb
@@ -370,7 +371,7 @@ func (p *path) addRule(
 		if y.desc.FullName() != desc.FullName() {
 			return fmt.Errorf("duplicate rule %v", rule)
 		}
-		return nil // Method already registered.
+		exists = true // Method already registered: still check the rest of the rule.
 	}
 
 	m := &method{
@@ -407,7 +408,9 @@ func (p *path) addRule(
 	}
 
 	// register method
-	if verb == "*" {
+	if exists {
+		// Keep the binding that is already there.
+	} else if verb == "*" {
 		cursor.methodAll = m
 	} else {
 		cursor.methods[verb] = m
